@@ -18,6 +18,7 @@ func init() {
 			"R8 the walkers look at an entry's name only to recognise '.' and '..' (no other selection by name) and leave a listing loop early only with a non-nil error: every selected node is handed on; R9 inside the producers every send on the directory queue, every listing of a sub-directory and every producer started for one is made only where DirFilter is unset or accepted that directory, and every send on the file queue only where FileFilter is unset or accepted the file (judged in the function itself or, for a helper, at all its call sites): nothing below a rejected directory is visited. " +
 			"Added in round 4: R4 also requires that jobsync.Lifecycle.Error appends every argument to the error list on every path (no error kind is filtered out on its way into the list); R7 accepts a field that is touched only through sync/atomic (a mix of atomic and plain accesses is still flagged). " +
 			"Added in round 5: R4 also requires that Loop.Errors returns Lifecycle.Errors() itself (nothing is filtered on the way out). " +
+			"Added in round 6: R5/R9 find queue sends as send statements, as the send case of a select, and as calls that hand a queue to a function sending on that parameter. " +
 			"NOT decided: exactly-once delivery under all schedules (R1-R7 are its necessary shape; the interleaving argument itself is a model-checking job), callback concurrency measured at run time.",
 	})
 }
